@@ -172,13 +172,20 @@ def insertSess (p : SessKey × Session) : List (SessKey × Session) → List (Se
   | [] => [p]
   | x :: r => if p.1.1 < x.1.1 ∨ (p.1.1 == x.1.1 ∧ p.1.2 < x.1.2) then p :: x :: r else x :: insertSess p r
 
+def sessStr (p : SessKey × Session) : String :=
+  -- resets are printed relative to t0; an untouched session is abbreviated
+  if p.2.used.isEmpty ∧ p.2.seq == 0 then s!"s{p.1.1}.{p.1.2}@{p.2.reset - t0}"
+  else s!"s{p.1.1}.{p.1.2}[u={coinsStr p.2.used} r={p.2.reset - t0} q={p.2.seq}]"
+
 def dump (w : World) : String :=
-  let ms := (List.range nMasters).map fun i => s!"m{i}[{balStr w (.m i)}] "
-  let as := (List.range nRcpts).map fun i => s!"a{i}[{balStr w (.a i)}] "
-  let ss := (w.sess.foldr insertSess []).map fun p =>
-    s!" s{p.1.1}.{p.1.2}[u={coinsStr p.2.used} r={p.2.reset} q={p.2.seq}]"
-  String.join ms ++ String.join as ++ "|" ++ String.join ss ++
-    s!" | n={w.sink 0},{w.sink 1},{w.sink 2},{w.sink 3}"
+  let ms := (List.range nMasters).map fun i => s!"m{i}[{balStr w (.m i)}]"
+  let as := (List.range nRcpts).map fun i => s!"a{i}[{balStr w (.a i)}]"
+  let ss := (w.sess.foldr insertSess []).map sessStr
+  String.join ms ++ String.join as ++ "|" ++ " ".intercalate ss ++
+    s!"|n={w.sink 0},{w.sink 1},{w.sink 2},{w.sink 3}"
+
+/-- the harness kit cuts every output line at 300 bytes (all output is ASCII) -/
+def clip (s : String) : String := if s.length > 300 then String.ofList (s.toList.take 300) else s
 
 def step (w : World) (t : List String) : World × String :=
   match t with
@@ -187,11 +194,11 @@ def step (w : World) (t : List String) : World × String :=
   match pOp t with
   | none => (w, "err:badop")
   | some (.time v) => (_root_.GnoVerif.C16.step w (.time v), "ok")
-  | some (.fund a c) => let w' := _root_.GnoVerif.C16.step w (.fund a c); (w', "ok | " ++ dump w')
+  | some (.fund a c) => let w' := _root_.GnoVerif.C16.step w (.fund a c); (w', clip ("ok | " ++ dump w'))
   | some (.tx x) =>
     let (w', r) := runTx w x
     let rs := match r with | .ok () => "ok" | .error e => e.token
-    (w', rs ++ " | " ++ dump w')
+    (w', clip (rs ++ " | " ++ dump w'))
 
 end GnoVerif.Drive.C16
 
